@@ -412,3 +412,63 @@ def check_completion_blocks(rule, idx, f: FunctionInfo, want=("sea",)) -> None:
                    f"or traced in a partial (gauge-dependent) subspace")
         rule.check(nonempty, f"{f.qualname}: the {kind} block is added only when it is non-empty", f, st,
                    f"`{norm1(st)}` is not guarded by a `hi > lo` test: an empty group (ib, ib) would be traced")
+
+
+def check_range_partition(rule, idx) -> None:
+    """get_bands_in_range / get_bands_below_range / get_bands_above_range split the band groups without a gap at the window edges:
+    a group is *below* iff max(Ebandmax) < emin, so it is *in range* iff max(Ebandmax[ib1:ib2]) >= emin (and symmetrically
+    min(Ebandmin[ib1:ib2]) <= emax against Ebandmin > emax); the test is taken over exactly the bands [ib1, ib2) of the group."""
+    TET = "wannierberri/grid/tetrahedron.py"
+    gi = idx.function(TET, "get_bands_in_range")
+    gb = idx.function(TET, "get_bands_below_range")
+    ga = idx.function(TET, "get_bands_above_range")
+    emin_p, emax_p = gi.params[0], gi.params[1]
+
+    def edge_compare(f, arr_hint: str, bound: str):
+        """(op name, resolved left text) of the comparison of an Eband* array (or a reduction of a slice of it) with `bound` in f"""
+        S = Sem(idx, f)
+        out = []
+        for c in ast.walk(f.node):
+            if isinstance(c, ast.Compare) and len(c.ops) == 1:
+                l, r, op = c.left, c.comparators[0], type(c.ops[0]).__name__
+                if norm(l) == bound:
+                    l, r = r, l
+                    op = {"Lt": "Gt", "Gt": "Lt", "LtE": "GtE", "GtE": "LtE"}.get(op, op)
+                if norm(r) == bound and arr_hint in norm(l):
+                    out.append((op, l, c))
+        return out
+    lo_in = edge_compare(gi, "Ebandmax", emin_p)
+    hi_in = edge_compare(gi, "Ebandmin", emax_p)
+    lo_out = edge_compare(gb, "Ebandmax", gb.params[0])
+    hi_out = edge_compare(ga, "Ebandmin", ga.params[0])
+    rule.expect(len(lo_in) == 1 and len(hi_in) == 1 and len(lo_out) == 1 and len(hi_out) == 1, "window-edge comparisons located", gi, gi.node,
+                f"get_bands_in_range / below / above: expected one comparison each with the window edge, found "
+                f"{len(lo_in)}, {len(hi_in)}, {len(lo_out)}, {len(hi_out)}")
+    if not (len(lo_in) == 1 and len(hi_in) == 1 and len(lo_out) == 1 and len(hi_out) == 1):
+        return
+    comp = {"Lt": "GtE", "LtE": "Gt", "Gt": "LtE", "GtE": "Lt"}
+    rule.check(lo_in[0][0] == comp[lo_out[0][0]], "lower edge: in-range test is the complement of the below-range test", gi, lo_in[0][2],
+               f"a group is below the window iff Ebandmax `{lo_out[0][0]}` emin but in range iff `{norm1(lo_in[0][2])}`: a group whose top equals "
+               f"the first Fermi level exactly is neither below nor in range (it gets no weight), or both (counted twice)")
+    rule.check(hi_in[0][0] == comp[hi_out[0][0]], "upper edge: in-range test is the complement of the above-range test", gi, hi_in[0][2],
+               f"a group is above the window iff Ebandmin `{hi_out[0][0]}` emax but in range iff `{norm1(hi_in[0][2])}`: a group whose bottom equals "
+               f"the last Fermi level is neither above nor in range, or both")
+    # the reduction runs over exactly the group's bands
+    okg = True
+    for (op_, l_, c_), red in ((lo_in[0], "max"), (hi_in[0], "min")):
+        m_ = pmatch(l_, f"A_[P_:Q_].{red}()", {"A_", "P_", "Q_"}) or pmatch(l_, f"np.{red}(A_[P_:Q_])", {"A_", "P_", "Q_"}) or pmatch(l_, f"{red}(A_[P_:Q_])", {"A_", "P_", "Q_"})
+        if not (m_ and m_[0][0] is l_):
+            okg = False
+            continue
+        P_, Q_ = m_[0][1]["P_"], m_[0][1]["Q_"]
+        x = c_
+        S = Sem(idx, gi)
+        bound_ok = False
+        while x in S.pm:
+            x = S.pm[x]
+            tgts = [x.target] if isinstance(x, ast.For) else [g_.target for g_ in x.generators] if isinstance(x, (ast.ListComp, ast.GeneratorExp)) else []
+            if any(isinstance(t_, ast.Tuple) and [norm(e_) for e_ in t_.elts] == [P_, Q_] for t_ in tgts):
+                bound_ok = True
+        okg = okg and bound_ok
+    rule.check(okg, "the window test of a group is the max / min over exactly its bands [ib1, ib2)", gi, lo_in[0][2],
+               "the in-range test is not taken over max(Ebandmax[ib1:ib2]) / min(Ebandmin[ib1:ib2]) of the group's own bands")
